@@ -41,6 +41,20 @@ pub fn c17_check_value(l: &Locale) -> Vec<Fail> {
             if back != *l || back.to_string() != l.to_string() {
                 out.push(fail("locale-parts-roundtrip", format!("from_parts(into_parts({})) = {}", l, back)));
             }
+            // the unchecked constructor must agree with the checked one on already-canonical parts
+            match guard(|| e.parse::<ExtensionsMap>()) {
+                Ok(Ok(em2)) => {
+                    let mut sorted = v.clone();
+                    sorted.sort_unstable();
+                    sorted.dedup();
+                    let boxed = if sorted.is_empty() { None } else { Some(sorted.into_boxed_slice()) };
+                    let rawl = unsafe { Locale::from_raw_parts_unchecked(lang, s, r, boxed, em2) };
+                    if rawl != *l || rawl.to_string() != l.to_string() {
+                        out.push(fail("locale-raw-parts-roundtrip", format!("Locale::from_raw_parts_unchecked(into_parts({})) = {}", l, rawl)));
+                    }
+                }
+                _ => {}
+            }
             if l.extensions.is_empty() {
                 let b2 = Locale::from_parts(lang, s, r, &v, None);
                 if b2 != *l {
